@@ -19,7 +19,23 @@ open Store
 /-- a read-only call returns the state it was given -/
 theorem C15_store_frame (kt : KeyType) (s s' : Store) (op : Op) (o : Out) (hro : op.isUpdate = false)
     (h : s.step kt op = some (s', o)) : s' = s := by
-  sorry
+  cases op with
+  | put k v => simp [Op.isUpdate] at hro
+  | del k => simp [Op.isUpdate] at hro
+  | get k =>
+    simp only [Store.step, Option.map_eq_some_iff] at h
+    obtain ⟨r, _, hr⟩ := h
+    exact (congrArg Prod.fst hr).symm
+  | includes k =>
+    simp only [Store.step, Option.map_eq_some_iff] at h
+    obtain ⟨r, _, hr⟩ := h
+    exact (congrArg Prod.fst hr).symm
+  | len =>
+    simp only [Store.step, Option.some.injEq] at h
+    exact (congrArg Prod.fst h).symm
+  | isEmpty =>
+    simp only [Store.step, Option.some.injEq] at h
+    exact (congrArg Prod.fst h).symm
 
 /-- … so the files are byte-for-byte what they were -/
 theorem C15_files_unchanged (kt : KeyType) (s s' : Store) (op : Op) (o : Out) (hro : op.isUpdate = false)
@@ -29,17 +45,40 @@ theorem C15_files_unchanged (kt : KeyType) (s s' : Store) (op : Op) (o : Out) (h
 /-- `delete` of an absent key and lookups of absent keys change nothing either -/
 theorem C15_delete_absent {kt : KeyType} {s : Store} (h : Inv kt s) (k : List Nat) (hk : KeyOK kt k)
     (habs : Spec.get (abs s) k = none) : s.del kt k = some (s, none) := by
-  sorry
+  have hno := (abs_get_none h k).mp habs
+  rcases find_spec h k hk with ⟨o, sz, r, l1, l2, _, hu, hkr, _⟩ | ⟨hfind, _⟩
+  · exact absurd hkr (hno o sz r hu)
+  · simp [Store.del, hfind]
 
 /-- a sequence of read-only calls, of any length, leaves state and files unchanged -/
 theorem C15_session (kt : KeyType) (ops : List Op) (hro : ∀ op ∈ ops, op.isUpdate = false) :
     ∀ (s s' : Store) (outs : List Out), s.run kt ops = some (s', outs) → s' = s ∧ render kt s' = render kt s := by
-  sorry
+  induction ops with
+  | nil =>
+    intro s s' outs h
+    simp only [Store.run, Option.some.injEq, Prod.mk.injEq] at h
+    rw [← h.1]; exact ⟨rfl, rfl⟩
+  | cons op ops ih =>
+    intro s s' outs h
+    simp only [Store.run] at h
+    cases hs : s.step kt op with
+    | none => simp [hs] at h
+    | some p =>
+      obtain ⟨s1, o⟩ := p
+      have h1 : s1 = s := C15_store_frame kt s s1 op o (hro op (by simp)) hs
+      simp only [hs] at h
+      cases hr : Store.run kt s1 ops with
+      | none => simp [hr] at h
+      | some q =>
+        obtain ⟨s2, os⟩ := q
+        simp only [hr, Option.some.injEq, Prod.mk.injEq] at h
+        have := ih (fun op' hm => hro op' (by simp [hm])) s1 s2 os hr
+        rw [← h.1, ← h1]; exact this
 
 /-- flush / sync on a map whose dirty flag is clear writes nothing: buffers, disk and flag are
 exactly as before, and no event is emitted -/
 theorem C15_flush_clean (φ : Buf.Faults) (kind : Buf.SyncKind) (m : Buf.MapBuf) (hd : m.dirty = false) :
     m.flushLike φ kind = (m, true, []) := by
-  sorry
+  simp [Buf.MapBuf.flushLike, hd]
 
 end Abyss
